@@ -36,10 +36,20 @@ EXPLANATION = (
     "block delivery re-compares the root with that leaf, or the verifier's chain runs an always-seeding method first; "
     "sharenum and both trees are fixed at construction.  Clause 10 is VIOLATED on the current tree by "
     "get_all_blockhashes._got_block_hashes (genuine: a share stored under another share number, or a share with forged "
-    "blocks and a self-consistent block hash tree, verifies as good). "
+    "blocks and a self-consistent block hash tree, verifies as good); "
+    "(11) every container that ReadBucketProxy / WriteBucketProxy / ValidatedReadBucketProxy / ValidatedExtendedURIProxy / "
+    "Checker / Repairer (and their subclasses) change in place through self.<attr> is an object created for that instance: "
+    "no instance binding takes it from a class-body, module-level or default-argument binding (or an element of one), and "
+    "where the class body itself binds <attr> to a container every in-place change is preceded - in its function, in the "
+    "constructor, or at every self.<method> use of its method - by a per-instance `self.<attr> = ...` (one proxy exists per "
+    "share, so a shared offset table lets a share with a damaged header be read through another share's offsets); "
+    "(12) = C06.8 / C06.9: every remote write behind WriteBucketProxy.put_*/close reaches the Deferred its caller gets with "
+    "no handler replacing a failure, and callRemote('close') is sent only from a success callback of the final flush, so a "
+    "repaired share is counted (clause 6) only when all of it was acknowledged. "
     "Undecided: contents of repaired shares, hash/codec algebra, server behaviour between check and repair, "
     "that CHKUploader leaves existing shares alone (C22).")
-TECHNIQUE = "static analysis: CFG gate/dominance rules, Deferred-chain order, who-may-call sweeps, tuple/keyword agreement tables"
+TECHNIQUE = ("static analysis: CFG gate/dominance rules, Deferred-chain order and delivery, who-may-call sweeps, tuple/keyword "
+             "agreement tables, origin of in-place mutated instance state")
 
 CK = "immutable.checker"
 VEUP = CK + ":ValidatedExtendedURIProxy"
@@ -178,6 +188,300 @@ def _kw(call, name, pos=None):
     if v is None and pos is not None:
         v = arg(call, pos)
     return v
+
+
+# ------------------------------------------------ per-instance state (C45.11)
+RBP = "immutable.layout:ReadBucketProxy"
+WBP = "immutable.layout:WriteBucketProxy"
+STATE_CLASSES = (RBP, WBP, VRBP, VEUP, CHECKER, REP)
+_CONTAINER_LITS = (ast.Dict, ast.List, ast.Set, ast.ListComp, ast.DictComp, ast.SetComp)
+CONTAINER_CTORS = {"dict", "list", "set", "bytearray", "defaultdict", "OrderedDict", "deque", "Counter", "DictOfSets"}
+MUTATORS = {"append", "extend", "insert", "add", "update", "setdefault", "pop", "popitem", "remove", "discard", "clear",
+            "sort", "reverse", "appendleft", "extendleft", "popleft", "__setitem__", "__delitem__", "intersection_update",
+            "difference_update", "symmetric_difference_update", "add_to_set"}
+ELEMENT_READS = {"get", "setdefault", "pop", "__getitem__"}       # hand out an element of the receiver, not a copy
+OFFLINE_TOOLS = ("allmydata.scripts.", "allmydata.test.")
+
+
+def _is_container(e):
+    """An expression that builds a mutable container (one object per evaluation)."""
+    return isinstance(e, _CONTAINER_LITS) or (isinstance(e, ast.Call) and call_tail(e) in CONTAINER_CTORS)
+
+
+def _class_level_bindings(ci):
+    """{name: [value]} bound by the class body of ci itself, including bindings under if / try / with / for."""
+    out = {}
+
+    def walk(stmts):
+        for st in stmts:
+            if isinstance(st, ast.Assign):
+                for t in st.targets:
+                    if isinstance(t, ast.Name):
+                        out.setdefault(t.id, []).append(st.value)
+                    elif isinstance(t, (ast.Tuple, ast.List)) and isinstance(st.value, (ast.Tuple, ast.List)) \
+                            and len(t.elts) == len(st.value.elts):
+                        for tt, vv in zip(t.elts, st.value.elts):
+                            if isinstance(tt, ast.Name):
+                                out.setdefault(tt.id, []).append(vv)
+            elif isinstance(st, ast.AnnAssign) and isinstance(st.target, ast.Name) and st.value is not None:
+                out.setdefault(st.target.id, []).append(st.value)
+            elif isinstance(st, (ast.If, ast.Try, ast.With, ast.For, ast.While)):
+                for fld in ("body", "orelse", "finalbody"):
+                    walk(getattr(st, fld, []) or [])
+                for h in getattr(st, "handlers", []) or []:
+                    walk(h.body)
+    walk(ci.node.body)
+    return out
+
+
+class InstanceState:
+    """Which container objects the methods of a class mutate through `self.<attr>`, and where those objects come from.
+
+    Evaluated-once bindings: a class-body binding, a module-level binding, a default argument value.  A container
+    built there is ONE object for all instances of the class."""
+
+    def __init__(self, idx, ci):
+        self.idx = idx
+        self.ci = ci
+        self.mro = ci.mro()
+        self.cls_bind = {}                       # name -> [(value, defining class)]  (nearest class first)
+        for c in self.mro:
+            for k, vs in _class_level_bindings(c).items():
+                self.cls_bind.setdefault(k, []).extend((v, c) for v in vs)
+        self.funcs = []                          # methods visible in ci (own + inherited) and their nested defs
+        seen = set()
+
+        def collect(f):
+            if f.qual in seen:
+                return
+            seen.add(f.qual)
+            self.funcs.append(f)
+            for g in f.nested.values():
+                if isinstance(g.node, (ast.FunctionDef, ast.AsyncFunctionDef)):
+                    collect(g)
+        names = set()
+        for c in self.mro:
+            for nm, m in c.methods.items():
+                if nm not in names:
+                    names.add(nm)
+                    collect(m)
+        self._fn = {}
+        self.mutations = {}                      # attr -> [(fn, cfg node, ast node)]
+        self.stores = {}                         # attr -> [(fn, cfg node, value)]
+        for f in self.funcs:
+            self._scan(f)
+
+    def fnorm(self, f):
+        if f.qual not in self._fn:
+            self._fn[f.qual] = FlowNorm(f)
+        return self._fn[f.qual]
+
+    @staticmethod
+    def _root(e):
+        """x[k][j], x.setdefault(k, ..)[j], x.get(k): the container whose contents are reached is x."""
+        while True:
+            if isinstance(e, ast.Subscript):
+                e = e.value
+            elif isinstance(e, ast.Call) and isinstance(e.func, ast.Attribute) and e.func.attr in ELEMENT_READS:
+                e = e.func.value
+            else:
+                return e
+
+    def _self_attr(self, f, n, e):
+        s = self.fnorm(f).norm(n, self._root(e))
+        m = re.match(r"^self\.(\w+)$", s)
+        return m.group(1) if m else None
+
+    def _scan(self, f):
+        for n in f.cfg().nodes:
+            a = n.ast
+            if n.kind == "stmt" and isinstance(a, (ast.Assign, ast.AnnAssign)):
+                for t in (a.targets if isinstance(a, ast.Assign) else [a.target]):
+                    p = attr_path(t)
+                    if p and p.startswith("self.") and p.count(".") == 1:
+                        v = assign_value(n, p)
+                        if v is not None:
+                            self.stores.setdefault(p[5:], []).append((f, n, v))
+            if n.kind == "stmt" and isinstance(a, ast.AugAssign) and not isinstance(a.target, ast.Subscript):
+                x = self._self_attr(f, n, a.target)
+                if x and isinstance(a.target, ast.Attribute):
+                    self.mutations.setdefault(x, []).append((f, n, a))
+            for e in node_exprs(n):
+                for x in own_nodes(e, into_lambda=True):
+                    base = None
+                    if isinstance(x, ast.Subscript) and isinstance(x.ctx, (ast.Store, ast.Del)):
+                        base = x.value
+                    elif isinstance(x, ast.Call) and isinstance(x.func, ast.Attribute) and x.func.attr in MUTATORS:
+                        base = x.func.value
+                    if base is None:
+                        continue
+                    at = self._self_attr(f, n, base)
+                    if at:
+                        self.mutations.setdefault(at, []).append((f, n, x))
+
+    # -- evaluated-once containers
+    def once_container(self, e, module, depth=0):
+        """e, evaluated in a class body / at module level / as a default value, is (or names) one shared container."""
+        if e is None or depth > 4:
+            return False
+        if _is_container(e):
+            return True
+        if isinstance(e, ast.Name):
+            for (v, _c) in self.cls_bind.get(e.id, []):
+                if self.once_container(v, module, depth + 1):
+                    return True
+            return any(self.once_container(v, module, depth + 1) for v in module.assigns.get(e.id, []))
+        if isinstance(e, (ast.IfExp,)):
+            return self.once_container(e.body, module, depth + 1) or self.once_container(e.orelse, module, depth + 1)
+        if isinstance(e, ast.BoolOp):
+            return any(self.once_container(v, module, depth + 1) for v in e.values)
+        return False
+
+    def class_level_shared(self, attr):
+        """(value, class) of the class-body binding of attr that wins the lookup, when it is a shared container."""
+        b = self.cls_bind.get(attr)
+        if not b:
+            return None
+        nearest = b[0][1]
+        for (v, c) in b:
+            if c is nearest and self.once_container(v, c.module):
+                return (v, c)
+        return None
+
+    @staticmethod
+    def _param_default(f, name):
+        a = f.node.args
+        pos = list(getattr(a, "posonlyargs", [])) + list(a.args)
+        for p, d in zip(pos[len(pos) - len(a.defaults):], a.defaults):
+            if p.arg == name:
+                return d
+        for p, d in zip(a.kwonlyargs, a.kw_defaults):
+            if p.arg == name and d is not None:
+                return d
+        return None
+
+    def shared_source(self, f, n, v, attr, depth=0):
+        """Why the value v (stored into self.<attr> at node n of f) is an object shared between instances, or None."""
+        if v is None or depth > 5:
+            return None
+        v = self.fnorm(f).resolve(n, v)
+        rec = lambda x: self.shared_source(f, n, x, attr, depth + 1)
+        if isinstance(v, ast.IfExp):
+            return rec(v.body) or rec(v.orelse)
+        if isinstance(v, ast.BoolOp):
+            for x in v.values:
+                s = rec(x)
+                if s:
+                    return s
+            return None
+        if isinstance(v, ast.Subscript):
+            s = rec(v.value)
+            return s and "an element of " + s
+        if isinstance(v, ast.Call) and isinstance(v.func, ast.Attribute) and v.func.attr in ELEMENT_READS:
+            s = rec(v.func.value)
+            return s and "an element of " + s
+        if isinstance(v, ast.Name):
+            g = f
+            while g is not None:
+                if v.id in g.params:
+                    d = self._param_default(g, v.id)
+                    if d is not None and self.once_container(d, g.module):
+                        return "the default value of parameter %s of %s (evaluated once, at definition)" % (v.id, short(g))
+                    return None
+                if v.id in all_defs(g):
+                    return None
+                g = g.parent
+            if any(self.once_container(x, f.module) for x in f.module.assigns.get(v.id, [])):
+                return "the module-level container %s" % v.id
+            return None
+        if isinstance(v, ast.Attribute):
+            b = v.value
+            via_class = attr_path(b) == "self.__class__" or \
+                (isinstance(b, ast.Call) and call_name(b) == "type" and len(b.args) == 1 and attr_path(b.args[0]) == "self") or \
+                (isinstance(b, ast.Name) and b.id in {c.name for c in self.mro} and b.id not in all_defs(f))
+            via_self = attr_path(b) == "self" and not [s for s in self.stores.get(v.attr, []) if s[1] is not n]
+            if (via_class or via_self) and self.class_level_shared(v.attr):
+                return "the class attribute %s.%s" % (self.class_level_shared(v.attr)[1].name, v.attr)
+        return None
+
+    # -- is a mutation preceded by a per-instance binding?
+    def _binds(self, attr):
+        return lambda x: assign_value(x, "self." + attr) is not None
+
+    def _dominated(self, f, n, attr):
+        """Node n of f (or, for a nested def, the point where it is defined in its enclosing functions) is reached only
+        after `self.<attr> = ...`."""
+        while True:
+            if not find_path_avoiding(f.cfg(), lambda x, _n=n: x is _n, gate_node=self._binds(attr)):
+                return True
+            if f.parent is None:
+                return False
+            dn = [x for x in f.parent.cfg().nodes if x.ast is f.node]
+            if not dn:
+                return False
+            f, n = f.parent, dn[0]
+
+    def bound_by_init(self, attr, init=None, depth=0):
+        """Every normal path through the constructor runs `self.<attr> = ...` (itself, or in the base-class constructor
+        it delegates to with `Base.__init__(self, ..)` / `super().__init__(..)`)."""
+        init = init or self.ci.lookup("__init__")
+        if init is None or depth > 4:
+            return False
+        binds = self._binds(attr)
+
+        def delegates(x):
+            for c in node_calls(x):
+                if call_tail(c) != "__init__" or not isinstance(c.func, ast.Attribute):
+                    continue
+                b = c.func.value
+                base = None
+                if isinstance(b, ast.Call) and call_name(b) == "super":
+                    later = self.mro[self.mro.index(init.cls) + 1:] if init.cls in self.mro else []
+                    base = next((k.methods["__init__"] for k in later if "__init__" in k.methods), None)
+                elif isinstance(b, ast.Name) and c.args and attr_path(c.args[0]) == "self":
+                    k = next((k for k in self.mro if k.name == b.id and k is not init.cls), None)
+                    base = k.lookup("__init__") if k is not None else None
+                if base is not None and base is not init and self.bound_by_init(attr, base, depth + 1):
+                    return True
+            return False
+        return not find_path_avoiding(init.cfg(), lambda x: x.kind == "exit", gate_node=lambda x: binds(x) or delegates(x))
+
+    def protected(self, f, n, attr, depth=0):
+        if self._dominated(f, n, attr):
+            return True
+        if depth >= 3:
+            return False
+        top = f
+        while top.parent is not None:
+            top = top.parent
+        if top.name == "__init__" or self.ci.lookup(top.name) is not top:
+            return False
+        # every use of the method is `self.<method>` inside this class, at a point that is itself protected
+        cg = get_callgraph(self.idx)
+        uses = [(cs.fn, cs.call.func) for cs in cg.calls_named(top.name)] + \
+               [(g, nd) for (g, nd) in cg.refs_named(top.name) if not isinstance(nd, ast.Name)]
+        mine = []
+        for (g, nd) in uses:
+            if g.module.name.startswith(OFFLINE_TOOLS):
+                continue                          # debugging commands build their own proxies, outside check / verify / repair
+            recv = attr_path(nd.value) if isinstance(nd, ast.Attribute) else None
+            if g.cls is not None and (g.cls in self.mro or self.ci in g.cls.mro()) and recv == "self":
+                mine.append((g, nd))
+            elif recv == "self" and g.cls is not None:
+                continue                          # a method of the same name in an unrelated class
+            else:
+                return False                      # called on some other receiver: order unknown
+        if not mine:
+            return False
+        for (g, nd) in mine:
+            gn = None
+            for x in g.cfg().nodes:
+                if any(any(y is nd for y in own_nodes(e, into_lambda=True)) for e in node_exprs(x)):
+                    gn = x
+                    break
+            if gn is None or not self.protected(g, gn, attr, depth + 1):
+                return False
+        return True
 
 
 def run(ctx: Context):
@@ -1451,3 +1755,63 @@ def run(ctx: Context):
                         "IncompleteHashTree takes its root from these hashes, and nothing later compares that root with %s, so a "
                         "share whose block hash tree is merely self-consistent (another share number's file, or forged blocks) "
                         "is reported good" % (src(f, c), w.brief(), LEAF), w)
+
+    # -- 11. per-instance state of the share proxies ---------------------------
+    with ctx.rule("C45.11", "R5/R1", "every container a share proxy / checker / repairer mutates in place through self.<attr> "
+                  "was created for that instance: it is never the value of a class-body, module-level or default-argument "
+                  "binding (one object for all instances - one ReadBucketProxy exists per share under verification, so a "
+                  "shared offset table lets one share be read through another share's header)", expected=6) as r:
+        seen = set()
+        todo = []
+        for q in STATE_CLASSES:
+            ci = idx.cls(q)
+            for c in [ci] + list(idx.subclasses(ci)):
+                if c.qual not in seen:
+                    seen.add(c.qual)
+                    todo.append(c)
+        reported = set()
+        for ci in todo:
+            st = InstanceState(idx, ci)
+            if not st.funcs:
+                raise AnchorVanished("%s has no methods" % ci.qual)
+            r.site(ci.qual, None, "instance state: %d attribute(s) mutated in place (%s)" % (
+                len(st.mutations), ", ".join(sorted(st.mutations))))
+            r.count(sum(len(f.cfg().nodes) for f in st.funcs))
+            for attr in sorted(st.mutations):
+                sites = st.mutations[attr]
+                # (a) bound per instance to an object that is shared
+                for (f, n, v) in st.stores.get(attr, []):
+                    why = st.shared_source(f, n, v, attr)
+                    if why and (f.qual, attr, "store") not in reported:
+                        reported.add((f.qual, attr, "store"))
+                        (mf, mn, mx) = sites[0]
+                        r.violation(f, f.loc(n.ast), "%s binds self.%s to %s, and %s changes it in place (%s): all "
+                                    "instances of %s work on one %s, so what one share's proxy records is used for, "
+                                    "and overwritten by, the others" % (short(f), attr, why, short(mf), src(mf, mx), ci.name, attr))
+                # (b) the class-body binding is a container and a mutation can reach it
+                cl = st.class_level_shared(attr)
+                if cl is None:
+                    continue
+                if st.bound_by_init(attr):
+                    continue
+                for (f, n, x) in sites:
+                    if st.protected(f, n, attr):
+                        continue
+                    if (f.qual, attr, "mut") in reported:
+                        continue
+                    reported.add((f.qual, attr, "mut"))
+                    bad = find_path_avoiding(f.cfg(), lambda y, _n=n: y is _n, gate_node=st._binds(attr))
+                    r.violation(f, f.loc(x), "%s changes self.%s in place (%s) although no `self.%s = <new container>` "
+                                "precedes it for this instance: the object changed is the class-level %s.%s = %s, shared by "
+                                "every %s (one per share): the table parsed from one share's header is overwritten by the "
+                                "next share's, and a share with a damaged header is read through another share's offsets "
+                                "and verifies as good" % (short(f), attr, src(f, x), attr, cl[1].name, attr,
+                                                          norm_plain(cl[0]), ci.name),
+                                bad[0][1] if bad else None)
+
+    # -- 12. a repaired share is reported placed only if every write of it was acknowledged ---
+    # The repairer uploads through CHKUploader -> Encoder -> WriteBucketProxy; repair_successful / the post-repair share map
+    # (clause 6) count a share as soon as the Encoder's close of its bucket succeeded.  That is sound only when the proxy
+    # hands the outcome of every remote write to the Encoder and finalises the share after the last write was acknowledged:
+    # exactly C06.8 / C06.9, adopted here (C06 includes nothing, so there is no cycle).
+    ctx.include("C06", ["C06.8", "C06.9"], "C45.12")
